@@ -45,6 +45,19 @@ def _log_keys(repo):
                 return [k[1].strip("'\"") for k, _ in v[1]], all(x in (("list", ()), ("acc", "list", ())) for _, x in v[1]), sx, e
             if v[:1] == ("acc",) and v[1] == "dict":
                 ks = [c[2][1].strip("'\"") for c in v[2] if c[0] == "kv" and c[2][:1] == ("const",)]
+                # {k: [] for k in FIELDS} over a module-level tuple of names (or a display written in place)
+                for c in v[2]:
+                    if c[0] == "kv" and c[2][:1] == ("elem",) and not c[1]:
+                        dom = c[2][1]
+                        names = None
+                        if dom[:1] == ("glob",):
+                            cv = getattr(sx.cx.module, "consts", {}).get(dom[1])
+                            if isinstance(cv, (ast.Tuple, ast.List)) and all(isinstance(x, ast.Constant) and isinstance(x.value, str) for x in cv.elts):
+                                names = [x.value for x in cv.elts]
+                        elif dom[:1] in (("tuple",), ("list",)) and all(x[:1] == ("const",) for x in dom[1]):
+                            names = [x[1].strip("'\"") for x in dom[1]]
+                        if names:
+                            ks.extend(names)
                 return ks, all(c[3] in (("list", ()), ("acc", "list", ())) for c in v[2] if c[0] == "kv"), sx, e
     raise AnalysisError("Optimize.__init__: the `_log` literal was not found")
 
